@@ -339,3 +339,12 @@ def closures_called_in_loop(n, minimise, loss):
             return loss(i_pair, w)
         out.append(minimise(loss_opt))
     return out
+
+
+# ---- OR-FALSY
+def table_with_falsy_entry(weighting):
+    return {'equal': 0, 'number': 1}.get(weighting) or 1
+
+
+def table_without_falsy_entry(weighting):
+    return {'equal': 1, 'number': 2}.get(weighting) or 2
